@@ -180,7 +180,7 @@ func (c *Check) prefixLoops(rule string) {
 		c.require(okS, rule, s.fn, "whole field consumed", p.Pos(fn.Pos()), "a non-nil list is returned only after the field is consumed completely")
 		// order-preserving unconditional append of each decoded entry
 		apps := p.callsIn(fn, descIs("builtin:append"))
-		okA := len(apps) == 1 && inLoop(apps[0].Block())
+		okA := len(apps) == 1 && inLoop(apps[0].Block()) && everyIteration(apps[0].(ssa.Instruction))
 		c.require(okA, rule, s.fn, "append every entry in order", p.Pos(fn.Pos()), "one append per decoded entry, in wire order")
 		// the next entry starts at the remainder decodePrefix returned
 		plain := NewAnalysis(p, fn)
